@@ -8,6 +8,7 @@ from check_c05 import report
 
 N = {"quick": 5000, "thorough": 80000}
 FROM7 = [dict(tbl="t7", alias="", jt="", on=[])]
+LIMOFFS = [(-1, -1), (-1, -1), (-1, -1), (1, -1), (-1, 1), (2, 1), (0, -1), (-1, -1), (5, 0)]
 
 
 def run(ctx):
@@ -17,8 +18,15 @@ def run(ctx):
     tables, lgs, wheres = sets["tables7"], sets["listgroups7"], sets["wheres7"]
     cases = []
     for n, (t, lg, w) in enumerate(semlib.cover_product(rng, [tables, lgs, wheres], N[ctx.tier])):
-        q = dict(**{"from": FROM7}, where=wheres[w], list=lgs[lg]["list"], group=lgs[lg]["group"], order=[], limit=-1, offset=-1, style=n % 8)
-        cases.append(dict(db={"t7": tables[t]}, q=q, _t=t))
+        # LIMIT / OFFSET cut the aggregate rows, never the rows that are aggregated
+        lim, off = LIMOFFS[n % len(LIMOFFS)]
+        q = dict(**{"from": FROM7}, where=wheres[w], list=lgs[lg]["list"], group=lgs[lg]["group"], order=[], limit=lim, offset=off, style=n % 8)
+        tab = tables[t]
+        if n % 4 == 1:
+            # the nullable column n first in the table: COUNT(n) counts the leading column of the input
+            perm = [3, 0, 1, 2, 4, 5]
+            tab = dict(cols=[tab["cols"][i] for i in perm], rows=[[r[i] for i in perm] for r in tab["rows"]])
+        cases.append(dict(db={"t7": tab}, q=q, _t=t))
         # the same rows in reverse insertion order: aggregates must not depend on row order
         if n % 3 == 0 and len(tables[t]["rows"]) > 1:
             rev = dict(cols=tables[t]["cols"], rows=list(reversed(tables[t]["rows"])))
@@ -26,7 +34,8 @@ def run(ctx):
     # aggregates on top of a join (the same table under two aliases)
     jl, fs = sets["joinlistgroups7"], sets["fromself7"][0]
     for n, (t, lg) in enumerate(semlib.cover_product(rng, [tables, jl], N[ctx.tier] // 5)):
-        q = dict(**{"from": fs}, where=[], list=jl[lg]["list"], group=jl[lg]["group"], order=[], limit=-1, offset=-1, style=n % 8)
+        lim, off = LIMOFFS[(n + 3) % len(LIMOFFS)]
+        q = dict(**{"from": fs}, where=[], list=jl[lg]["list"], group=jl[lg]["group"], order=[], limit=lim, offset=off, style=n % 8)
         cases.append(dict(db={"t7": tables[t]}, q=q, _t=("j", t)))
     pool = vlib.WorkerPool(ctx, binary)
     try:
